@@ -65,7 +65,7 @@ def _lines():
 @st.composite
 def _registry(draw) -> dict:
     reg: dict = {}
-    for node in draw(st.lists(st.sampled_from((0, 1, 2, 3)), max_size=3, unique=True)):
+    for node in draw(st.lists(st.sampled_from((0, 1, 2, 3, 1, 2, 3, 253)), max_size=3, unique=True)):
         children = {}
         for child in draw(st.lists(st.sampled_from((0, 1)), max_size=2, unique=True)):
             values = draw(st.dictionaries(st.sampled_from(("0", "2")), gen.short_payloads, max_size=2))
@@ -80,7 +80,7 @@ def _registry(draw) -> dict:
 
 def strategy(tier: str):
     op = gen.weighted(
-        (8, _lines().map(lambda l: ["rx", l])),
+        (8, gen.with_ack(_lines()).map(lambda l: ["rx", l])),
         (1, st.builds(lambda n, v: ["flag", n, "reboot", v], st.sampled_from((1, 2, 3)), st.booleans())),
     )
     return st.fixed_dictionaries(
